@@ -121,6 +121,13 @@ CHECKS = {
              'characters, range ends +-1, members and non-members of every escape, sampled members and neighbours, windows; matches / matches+Match / allMatches / tokenize / replace results are compared with the '
              'references and between variants and passes; 22 malformed-expression operators must give ParseException. Sanitizer reports, foreign exceptions and twice-confirmed hangs are violations.',
         note='Trusted: the reference matchers (cross-checked on the first 40 strings of every expression). Back-references, capture groups > 0 and case-insensitive category escapes are not judged.'),
+    'C20': dict(
+        category='exploration', design_ref='DESIGN.md §4 C20',
+        technique='runtime monitoring: reference XInclude processor (tree + per-element base URI, or fatal class) as oracle over generated file graphs incl. inclusion cycles, through two DOM APIs under ASan+UBSan with a progress watchdog',
+        text='Generated file graphs (nested directories, include chains 3-7 deep, repeated targets, text resources in six encodings, nested/unused fallbacks, cycles of length 1-4 plain and through fallbacks, '
+             '15 kinds of invalid usage, explicit xml:base, DTDs in included documents, dot-segment hrefs) are written to disk and parsed with XInclude on through XercesDOMParser and DOMLSParser; the resulting DOM '
+             'and every element\'s getBaseURI() are compared with a reference XInclude 1.0 expansion; expected-fatal graphs (loops, misuse) must be reported and must terminate. In-repo XInclude documents run as sanitizer-only cases.',
+        note='Trusted: the reference expansion (pyexpat trees). file: URLs only; xpointer follows the documented deviation (always reported); cases XInclude leaves implementation-defined are skipped and counted.'),
 }
 
 NOT_YET = 'check not built yet (work in progress; see DESIGN.md section 9 build order)'
